@@ -60,6 +60,22 @@ func geometry(t *tor.Torrent) string {
 			return "piece hash of wrong size"
 		}
 	}
+	// the piece table matches the length: every piece full-sized except a
+	// possibly shorter last one, summing to the total
+	if np > 0 {
+		last := uint32(np - 1)
+		if got, want := int64(t.Pieces.PieceLength(last)), L-(np-1)*ps; got != want {
+			return fmt.Sprintf("last piece has length %d, want %d (length %d, piece size %d)", got, want, L, ps)
+		}
+		if np > 1 {
+			if got := int64(t.Pieces.PieceLength(0)); got != ps {
+				return fmt.Sprintf("first piece has length %d, piece size is %d", got, ps)
+			}
+			if got := int64(t.Pieces.PieceLength(last - 1)); got != ps {
+				return fmt.Sprintf("piece %d has length %d, piece size is %d", last-1, got, ps)
+			}
+		}
+	}
 	if got, want := int64(len(tor.VerifInFlight(t))), (L+chunk-1)/chunk; got != want {
 		return fmt.Sprintf("%d in-flight slots for %d blocks", got, want)
 	}
@@ -967,6 +983,29 @@ func TestC13Magnets(t *testing.T) {
 func TestC13MagnetJunk(t *testing.T) {
 	rapid.Check(t, func(t *rapid.T) {
 		s := rapid.OneOf(
+			// near-miss hashes: base-32 of 15..19 bytes (32 characters with '=' padding), hex of odd sizes, line breaks inside
+			rapid.Custom(func(t *rapid.T) string {
+				k := rapid.IntRange(10, 24).Draw(t, "nbytes")
+				raw := rapid.SliceOfN(rapid.Byte(), k, k).Draw(t, "raw")
+				var h string
+				switch rapid.IntRange(0, 3).Draw(t, "enc") {
+				case 0:
+					h = base32.StdEncoding.EncodeToString(raw)
+				case 1:
+					h = hex.EncodeToString(raw)
+				case 2:
+					h = base32.StdEncoding.EncodeToString(raw)
+					if len(h) > 4 {
+						h = h[:len(h)/2] + "%0A" + h[len(h)/2:]
+					}
+				default:
+					h = strings.ToLower(base32.StdEncoding.EncodeToString(raw))
+				}
+				if rapid.Bool().Draw(t, "bare") {
+					return h
+				}
+				return "magnet:?xt=urn:btih:" + h + rapid.SampledFrom([]string{"", "&xt=urn:btih:" + strings.Repeat("ab", 20), "&dn=x"}).Draw(t, "tail")
+			}),
 			rapid.String(),
 			rapid.StringMatching(`magnet:\?(xt=urn:btih:[0-9a-fA-Z]{0,41}&?|tr=[a-z:/%.]{0,12}&?|dn=.{0,5}&?|[a-z]{1,3}=%[0-9a-z]{0,2}&?){0,5}`),
 			rapid.StringMatching(`(http|magnet|MAGNET|urn):[a-z?=&:%/]{0,30}`),
@@ -992,8 +1031,9 @@ func TestC13MagnetJunk(t *testing.T) {
 			if len(tt.Hash) != 20 {
 				t.Fatalf("ReadMagnet(%q) returned a torrent with a %d-byte hash", s, len(tt.Hash))
 			}
-			if !strings.Contains(strings.ToLower(s), strings.ToLower(hex.EncodeToString(tt.Hash))) &&
-				!strings.Contains(s, base32.StdEncoding.EncodeToString(tt.Hash)) {
+			flat := strings.NewReplacer("%0A", "", "%0a", "", "\n", "", "\r", "").Replace(s) // base-32 decoding ignores line breaks
+			if !strings.Contains(strings.ToLower(flat), strings.ToLower(hex.EncodeToString(tt.Hash))) &&
+				!strings.Contains(flat, base32.StdEncoding.EncodeToString(tt.Hash)) {
 				t.Fatalf("ReadMagnet(%q) invented hash %x", s, tt.Hash)
 			}
 		}
